@@ -200,6 +200,7 @@ struct Lin {
                 lattice = lattice && a[k] == 0;
             }
             auto got = v.at(x);
+            digest(name(), &got, sizeof got);
             // exact interpolant, sum of |w||v|, corner range
             for (size_t j = 0; j < M; ++j) {
                 q128 exact = 0, mag = 0;
